@@ -356,8 +356,68 @@ def chain_edges(rng, edges):
     return lines
 
 
+def fan_directions():
+    import functools
+    ds = [(x, y) for x in range(-3, 4) for y in range(-3, 4) if (x, y) != (0, 0) and math.gcd(abs(x), abs(y)) == 1]
+    def half(d): return 0 if (d[1] > 0 or (d[1] == 0 and d[0] > 0)) else 1
+    def cmp(u, v):
+        if half(u) != half(v): return half(u) - half(v)
+        c = u[0] * v[1] - u[1] * v[0]
+        return -1 if c > 0 else (1 if c < 0 else 0)
+    return sorted(ds, key=functools.cmp_to_key(cmp))
+
+
+FAN_DIRS = fan_directions()
+
+
+def gen_fan(rng):
+    """correctly noded linework with a node of high degree: several rings (petals) that meet only in one node c, free or
+    inside a box with c in its interior / at its corner / on its edge; plus dangles at c and nested boxes"""
+    D = FAN_DIRS; n = len(D)
+    where = rng.choice(['free', 'interior', 'corner', 'edge', 'interior'])
+    ok = {'free': lambda d: True, 'interior': lambda d: True,
+          'corner': lambda d: d[0] > 0 and d[1] > 0, 'edge': lambda d: d[1] > 0}[where]
+    slots = [j for j in range(n) if ok(D[j]) and ok(D[(j + 1) % n])]
+    rng.shuffle(slots)
+    used = set(); petals = []
+    for j in slots:
+        if len(petals) >= rng.choice([2, 3, 3, 4, 5]):
+            break
+        if j in used or (j + 1) % n in used or (j - 1) % n in used and False:
+            continue
+        if {j, (j + 1) % n} & used:
+            continue
+        used |= {j, (j + 1) % n}
+        k = rng.randint(1, 3)
+        a = (D[j][0] * k, D[j][1] * k); b = (D[(j + 1) % n][0] * k, D[(j + 1) % n][1] * k)
+        petals.append(((0, 0), a, b))
+    lines = []
+    for c, a, b in petals:
+        r = rng.random()
+        if r < 0.5: lines.append([c, a, b, c] if rng.random() < 0.5 else [c, b, a, c])
+        elif r < 0.8: lines += [[c, a], [a, b], [b, c]]
+        else: lines += [[c, a, b], [b, c]]
+    free = [j for j in range(n) if j not in used and ok(D[j])]
+    for j in rng.sample(free, min(len(free), rng.choice([0, 0, 1, 2]))):
+        lines.append([(0, 0), D[j]])                                        # dangle at the hub
+    B = 12
+    if where == 'interior':
+        lines.append([(-B, -B), (B, -B), (B, B), (-B, B), (-B, -B)])
+        if rng.random() < 0.3:
+            lines.append([(-B - 3, -B - 3), (B + 3, -B - 3), (B + 3, B + 3), (-B - 3, B + 3), (-B - 3, -B - 3)])
+    elif where == 'corner':
+        lines.append([(0, 0), (B, 0), (B, B), (0, B), (0, 0)])
+    elif where == 'edge':
+        lines += [[(-B, 0), (0, 0)], [(0, 0), (B, 0)], [(B, 0), (B, B), (-B, B), (-B, 0)]]
+    lines = [l[::-1] if rng.random() < 0.3 else l for l in lines]
+    rng.shuffle(lines)
+    return lines, 'fan-' + where
+
+
 def gen_poly(rng):
     """correctly noded linework: subsets of the edges of a triangulated grid (lines meet only at their end points)"""
+    if rng.random() < 0.3:
+        return gen_fan(rng)
     W, H = rng.randint(1, 5), rng.randint(1, 4)
     p = rng.choice([0.35, 0.5, 0.65, 0.8, 0.95])
     edges = set()
@@ -595,7 +655,7 @@ def run(ctx):
     judge_all(ctx, drv, cases, shrink=True)
     # self-check of the generators: every stream must have produced its degenerate classes
     st = ctx.notes.get('stats', {})
-    for need in ['node:with_intersection', 'merge:with_degree2', 'poly:with_dangle', 'poly:with_cut', 'poly:with_hole', 'shared:forward', 'shared:backward',
+    for need in ['node:with_intersection', 'merge:with_degree2', 'poly:with_dangle', 'poly:with_cut', 'poly:with_hole', 'poly:node-degree>=6', 'shared:forward', 'shared:backward',
                  'lr:exact', 'lr:multi', 'lr:negative', 'lr:beyond_end', 'lr:at_vertex']:
         if st.get(need, 0) == 0:
             ctx.broken.append(dict(kind='generator', name='distribution ' + need, detail='no case of class %s was generated' % need))
@@ -934,6 +994,11 @@ def judge_case(ctx, c, line, o, po, mres, allres, st):
         if dang: st('poly:with_dangle')
         if cuts: st('poly:with_cut')
         if any(len(rs) > 1 for rs in polys): st('poly:with_hole')
+        _deg = {}
+        for _l in c['lines']:
+            for _a, _b in zip(_l, _l[1:]):
+                if _a != _b: _deg[_a] = _deg.get(_a, 0) + 1; _deg[_b] = _deg.get(_b, 0) + 1
+        if _deg and max(_deg.values()) >= 6: st('poly:node-degree>=6')
         ctx.count(line, bool(polys) and (bool(dang) or bool(cuts) or len(polys) > 1))
         names = ['input-noded-no-duplicates', 'polygon-valid', 'edge-once-per-side', 'polygon-edges-are-input-edges', 'edge-accounting', 'dangles-are-the-pruned-edges', 'cut-edges-are-the-bridges', 'polygon-interiors-disjoint']
         if bits[0] != '1':
